@@ -50,12 +50,13 @@ def _validate(vh, cases, selftest=True):
         if rc != 0:
             raise Broken("vh api-cases failed: " + e[-3000:])
         trace = [json.loads(l) for l in open(sc.path("trace.ndjson")) if l.strip()]
-        if len(trace) != 2 * len(cases):
-            raise Broken("vh api-cases recorded %d events for %d cases" % (len(trace), len(cases)))
+        if sum(1 for ev in trace if ev["ev"] == "apitxn") != len(cases):
+            raise Broken("vh api-cases recorded %d calls for %d cases" % (sum(1 for ev in trace if ev["ev"] == "apitxn"), len(cases)))
         selfline = 0
         if selftest:
             # binding self-test: a copy of the last call's events claiming one more operation must be rejected
-            js = [j for j in range(1, len(trace), 2) if not trace[j]["apiErr"] and trace[j]["committed"] and trace[j]["nops"] > 0]
+            js = [j for j in range(1, len(trace)) if trace[j]["ev"] == "apitxn" and trace[j - 1]["ev"] == "sync" and not trace[j]["apiErr"]
+                  and trace[j]["committed"] and trace[j]["nops"] > 0]
             if js:
                 bad = json.loads(json.dumps(trace[js[-1]]))
                 bad["nops"] += 1
@@ -75,7 +76,8 @@ def _validate(vh, cases, selftest=True):
         gen, dist = tlc_stats(out)
         out_cases = []
         for m in mm:
-            i = (m["line"] - 2) // 2
+            # the case a line belongs to: the number of calls recorded before it
+            i = min(sum(1 for ev in trace[:m["line"] - 1] if ev["ev"] == "apitxn"), len(cases) - 1)
             out_cases.append({"mismatch": m, "api_case": cases[i], "key": {"dbi": cases[i]["dbi"], "call": cases[i]["call"]}})
         return {"events": len(trace), "states": dist, "transitions": gen, "cases": out_cases,
                 "sample": trace[1] if len(trace) > 1 else None, "selftest": bool(selfline)}
@@ -103,6 +105,9 @@ def _random(vh, job):
         cases = []
         for m in mm:
             ev = trace[m["line"] - 1]
+            if ev["ev"] == "setup":
+                # the call made next stands for the case
+                ev = next((x for x in trace[m["line"]:] if x["ev"] == "apitxn"), ev)
             # to confirm: the database the call was made on, loaded into a fresh one, and the call
             before = next((trace[j]["post"] for j in range(m["line"] - 2, -1, -1) if "post" in trace[j]), {})
             cases.append({"mismatch": m, "api_random": {"schema": job["schema"], "schema_seed": job["schema_seed"], "db": before, "call": ev.get("call")},
